@@ -13,6 +13,23 @@ struct Ctx<'a> {
     boundary: bool,
     nest: bool,
     reparse: bool,
+    shape: bool,
+}
+
+/// end of the last thing written in the table's own section: its values and the tables its dotted keys make
+fn own_extent(t: &Table) -> Option<usize> {
+    let mut m: Option<usize> = None;
+    for (_, it) in t.iter() {
+        let e = match it {
+            Item::Value(v) => v.span().map(|r| r.end),
+            Item::Table(sub) if sub.is_dotted() => sub.span().map(|r| r.end).or_else(|| own_extent(sub)),
+            _ => None,
+        };
+        if let Some(e) = e {
+            m = Some(m.map_or(e, |x| x.max(e)));
+        }
+    }
+    m
 }
 
 fn fmt_sp(s: &Sp) -> String {
@@ -84,19 +101,46 @@ impl<'a> Ctx<'a> {
         }
     }
     fn table(&mut self, t: &Table) {
+        self.table_in(t, &None, true)
+    }
+    fn table_in(&mut self, t: &Table, parent: &Sp, root: bool) {
         let s = t.span();
-        self.check(&s, &None);
+        self.check(&s, parent);
+        // shape of a table's span: a [header] table starts at its `[`; it ends with its last own entry, or, when it has
+        // none, with the `]` of its header (never inside the trivia after it); a dotted-key table ends with its last value
+        if let Some(r) = &s {
+            if r.start <= r.end && r.end <= self.src.len() && self.src.is_char_boundary(r.start) && self.src.is_char_boundary(r.end) {
+                let text = &self.src[r.clone()];
+                if !root && !t.is_dotted() && !text.starts_with('[') {
+                    self.shape = false;
+                }
+                match own_extent(t) {
+                    Some(e) => {
+                        if r.end != e {
+                            self.shape = false;
+                        }
+                    }
+                    None => {
+                        if !root && !t.is_dotted() && !text.ends_with(']') {
+                            self.shape = false;
+                        }
+                    }
+                }
+            }
+        }
         self.out.push(format!("T{}", fmt_sp(&s)));
         for (k, it) in t.iter() {
             // keys and values written in this table's own section lie inside its span;
             // sub-tables and arrays of tables have their own headers elsewhere
             let own = match it {
                 Item::Value(_) => s.clone(),
+                Item::Table(sub) if sub.is_dotted() => s.clone(),
                 _ => None,
             };
             if let Some(key) = t.key(k) {
                 let ks = match it {
                     Item::Value(_) => own.clone(),
+                    Item::Table(sub) if sub.is_dotted() => own.clone(),
                     _ => None,
                 };
                 self.key(key, &ks);
@@ -104,7 +148,8 @@ impl<'a> Ctx<'a> {
             match it {
                 Item::None => {}
                 Item::Value(v) => self.value(v, &own),
-                Item::Table(sub) => self.table(sub),
+                Item::Table(sub) if sub.is_dotted() => self.table_in(sub, &own, false),
+                Item::Table(sub) => self.table_in(sub, &None, false),
                 Item::ArrayOfTables(a) => {
                     let asp = a.span();
                     self.check(&asp, &None);
@@ -112,7 +157,7 @@ impl<'a> Ctx<'a> {
                     for sub in a.iter() {
                         let ss = sub.span();
                         self.check(&ss, &asp);
-                        self.table(sub);
+                        self.table_in(sub, &asp, false);
                     }
                 }
             }
@@ -129,17 +174,17 @@ pub fn cmd_spans(args: &crate::Args) -> String {
         Ok(d) => d,
         Err(_) => return "err".into(),
     };
-    let mut c = Ctx { src: s, out: Vec::new(), bounds: true, boundary: true, nest: true, reparse: true };
+    let mut c = Ctx { src: s, out: Vec::new(), bounds: true, boundary: true, nest: true, reparse: true, shape: true };
     c.table(d.as_table());
     // spans disappear once the document is made editable
     let m = d.clone().into_mut();
-    let mut c2 = Ctx { src: s, out: Vec::new(), bounds: true, boundary: true, nest: true, reparse: true };
+    let mut c2 = Ctx { src: s, out: Vec::new(), bounds: true, boundary: true, nest: true, reparse: true, shape: true };
     c2.table(m.as_table());
     let despan = c2.out.iter().all(|e| e[1..] == *"none");
     let ok = |b: bool| if b { "ok" } else { "BAD" };
     format!(
-        "ok spans={} bounds={} boundary={} nest={} reparse={} despan={}",
+        "ok spans={} bounds={} boundary={} nest={} reparse={} despan={} shape={}",
         if c.out.is_empty() { "-".to_string() } else { c.out.join(",") },
-        ok(c.bounds), ok(c.boundary), ok(c.nest), ok(c.reparse), ok(despan)
+        ok(c.bounds), ok(c.boundary), ok(c.nest), ok(c.reparse), ok(despan), ok(c.shape)
     )
 }
